@@ -421,10 +421,16 @@ def check(prop, tier, seed, work, replay, t0):
     nviol, reported, notes, knownhits = 0, 0, 0, {}
     viols = []
     # a run that the controller gave up on (stall / silence) counts only if the same plan stalls again when run alone
+    confirmed = 0
     for r in results:
         keep = []
         for rj in r["rej"]:
             if rj["event"].get("ev") in ("hang", "starved") and r["plans"] and os.path.exists(r["plans"]):
+                if confirmed >= 8:
+                    # executing a stalled plan again costs three stall time-outs: eight confirmed ones are enough to
+                    # report, the others are left out (fewer violations reported, never more)
+                    log("note: run %d stalled; not executed again (eight stalls already confirmed)" % rj["run"])
+                    continue
                 plan = None
                 with open(r["plans"]) as f:
                     for line in f:
@@ -434,6 +440,7 @@ def check(prop, tier, seed, work, replay, t0):
                 if plan is not None and not stall_reproduces(dagdrive, work, r["name"], plan):
                     log("note: run %d stalled under load but not when executed alone" % rj["run"])
                     continue
+                confirmed += 1
             keep.append(rj)
         r["rej"] = keep
     for r in results:
